@@ -3,6 +3,7 @@ import json
 from fractions import Fraction
 
 import fsamodel as F
+import translate_linear as TL
 from fsacheck import run_w
 from common import CoqError, coq_eval_values, coq_eval_bools, cq, dec_val, close_enough
 
@@ -117,7 +118,14 @@ def run(ctx):
     ctx.cov["rule"] = ("random weighted graphs (1-5 nodes, self loops, nested cycles, several components, isolated nodes, non-contiguous node names, rational weights with row sums < 1) and right-hand sides: "
                        "closure_scc_based, closure_reference, solve_left, solve_right vs the Coq models (Lehmann elimination over Qc, block solvers run on the implementation's own block list) and the exact inverse of I - A; "
                        "the implementation's block list is fed to the Coq SCC checker (partition, forward edges, strong connectivity); non-trivial = graph with at least one edge")
-    ok, out = ctx.build(["proofs/LehmannProof.vo", "proofs/ClosureExtra.vo", "proofs/BlockSolver.vo", "model/Blocks.vo"])
+    try:
+        ctx.cov["translators"].append({k: v for k, v in TL.main().items() if k != "text"})
+        ctx.obligation("translate_linear", True)
+        tr_ok = True
+    except TL.Refuse as e:
+        ctx.obligation("translate_linear", False, f"translator refused: {e}")
+        tr_ok = False
+    ok, out = ctx.build(["proofs/LehmannProof.vo", "proofs/ClosureExtra.vo", "proofs/BlockSolver.vo", "model/Blocks.vo", "proofs/GenLinearBridge.vo"]) if tr_ok else (False, "translator refused")
     if ok:
         ctx.prove("props/C15.v")
     else:
